@@ -64,8 +64,15 @@ def table_locals(fn):
 def wl_row(t, fn=None):
     """t = watch_list_x[L] (Index or IndexMut)"""
     t = strip(t)
-    return isinstance(t, tuple) and t and t[0] == "call" and t[1].name in ("index", "index_mut") and len(t[2]) == 2 and \
-        (is_wl(t[2][0]) or (fn is not None and is_wl_local(fn, t[2][0])))
+    if not (isinstance(t, tuple) and t and t[0] == "call" and t[1].name in ("index", "index_mut") and len(t[2]) == 2):
+        return False
+
+    def table(x):
+        x = strip(x)
+        if isinstance(x, tuple) and x and x[0] in ("gamma", "phi"):      # `if lit.polarity() { &mut pos } else { &mut neg }`
+            return bool(x[2]) and all(table(v) for _, v in x[2])
+        return is_wl(x) or (fn is not None and is_wl_local(fn, x))
+    return table(t[2][0])
 
 
 def space(fn, t, depth=0):
